@@ -415,6 +415,52 @@ def unacceptable_ike_rekey_answer(ck, mons, seed, w):
     a.step('tick')
 
 
+DELETE_LISTS = ((0, 2), (1, 3), (0, 1, 2), (3, 0), (2, 1, 0, 3), (1,), (0, 0, 2), (2, 3))
+
+
+def delete_lists_of_an_independent_peer(ck, mons, seed, w):
+    """An IKE_SA with FOUR CHILD_SAs; an independent peer closes several of them at once (one Delete payload listing their SPIs in any order, or one payload per SPI),
+    then the daemon closes one of the survivors itself. After every loop turn the kernel holds exactly the SAs the daemon tracks: the named CHILD_SAs are gone, with
+    their SAs, and every survivor is untouched."""
+    from vf.ref import peer as refpeer
+    from vf.checks import c02
+    rng = ck.rng('delete-lists', w)
+    which = DELETE_LISTS[w % len(DELETE_LISTS)]
+    one_payload = (w // len(DELETE_LISTS)) % 2 == 0
+    kw = dict(dpd=600, lifetime=3600, mode='tunnel', a_subnet='10.1.0.0/16', b_subnet='10.2.0.0/16', ip_proto='any', a_port=0, b_port=0, ipsec_proto='ah' if w % 5 == 4 else 'esp')
+    sim, a, b = S.make_pair(seed + w, **kw)
+    sim.case = {'family': 'delete-lists-of-an-independent-peer', 'positions_named': which, 'one_payload': one_payload, 'actions': []}
+    for m_ in mons:
+        m_.reset()
+        sim.monitors.append(lambda s_, ep, rec, m_=m_: m_.on_step(s_, ep, rec) if ep is a else None)
+    pr = refpeer.Peer(S.B4, S.A4, rng, c02.ID_B, c02.PSK_B, quirks=False)
+    if not pr.establish(sim, a, saddr='10.1.0.1', daddr='10.2.0.1') or not c02.established(a):
+        ck.count('delete_lists.setup_failed')
+        return
+    for k in (2, 3, 4):
+        sim.acquire(a, 0, saddr=f'10.1.0.{k}', daddr=f'10.2.0.{k}', sport=2000 + k)
+        pr.serve(sim, a)
+    sa = a.ctl.ike_sas[0]
+    if len(sa.child_sas) != 4 or len(pr.children) != 4:
+        ck.count('delete_lists.children_not_created')
+        return
+    named = [pr.children[k] for k in which]
+    pr.delete_children(sim, a, named, one_payload=one_payload)
+    pr.serve(sim, a)
+    ck.count('delete_lists.runs')
+    left = 4 - len(set(which))
+    ck.seen('delete_lists.kinds', (which, one_payload))
+    ck.nontrivial(('delete-lists', which, one_payload, len(sa.child_sas)))
+    if len(sa.child_sas) != left:
+        ck.violation('delete-payload-list-of-a-peer:number-of-child-sas-left-differs-from-the-number-not-named', {'named_positions': which, 'left': len(sa.child_sas), 'expected': left}, sim.case)
+        return
+    ck.count('delete_lists.survivors_as_expected')
+    if sa.child_sas:
+        sim.expire(a, bytes(sa.child_sas[-1].inbound_spi), True, daddr=S.A4, proto=51 if kw['ipsec_proto'] == 'ah' else 50)
+        pr.serve(sim, a)
+        pr.serve(sim, a)
+
+
 def judge_new_child(ck, sc):
     for who, same_ike, gone in getattr(sc, 'new_child_checks', []):
         ck.count('new_child_keeps_others.checked')
@@ -481,6 +527,9 @@ def run(ck):
     for w in range(28 if not ck.thorough() else 700):
         if ck.mine(w):
             requests_on_the_replaced_ike_sa(ck, mons, base + 4242, w)
+    for w in range(2 * len(DELETE_LISTS) if not ck.thorough() else 60 * len(DELETE_LISTS)):
+        if ck.mine(w + 2):
+            delete_lists_of_an_independent_peer(ck, mons, base + 6161, w)
     for w in range(3 * len(BAD_REKEY_ANSWERS) if not ck.thorough() else 60 * len(BAD_REKEY_ANSWERS)):
         if ck.mine(w + 1):
             unacceptable_ike_rekey_answer(ck, mons, base + 5151, w)
@@ -511,6 +560,7 @@ def verdict(ck):
     ck.floor('CHILD_SA creations after a (possibly refused) rekey that left every other pair in the kernel', ck.counters['new_child_keeps_others.held'], 30)
     ck.floor('authentic INFORMATIONAL requests delivered on an IKE_SA already replaced by a rekey', ck.counters['replaced.requests_delivered'], 20)
     ck.floor('authentic but unacceptable answers to an IKE_SA rekey of the daemon delivered', ck.counters['bad_rekey_answer.answers_delivered'], 25)
+    ck.floor('Delete payload lists of an independent peer on an IKE_SA with four CHILD_SAs, survivors as expected', ck.counters['delete_lists.survivors_as_expected'], 12)
     ck.floor('steps compared', ck.counters['sad.steps_checked'], 20000)
     ck.floor('non-empty equal comparisons', ck.counters['sad.equal_nonempty'], 10000)
     ck.floor('faults injected', ck.counters['faults.injected'], 150)
